@@ -204,6 +204,29 @@ pub fn run(ctx: &Ctx) -> Outcome {
                             }
                         }
                     }
+                    // (1c) stateless: every ordered pair (thorough: triple) of (size, call form) over sizes {0, 1, W, W+1},
+                    // followed by one single-block call -- nothing merged, so a form that leaves hidden state behind
+                    // for the NEXT form is seen whatever the exported chaining value says
+                    {
+                        let mut szs = vec![0usize, 1, par, par + 1];
+                        szs.sort();
+                        szs.dedup();
+                        let alphabet: Vec<P> = szs.iter().flat_map(|&n| fe.forms(n)).collect();
+                        let depth = if par <= 4 && bs <= 16 { tier.pick(2, 3) } else { 2 };
+                        let mut seqs: Vec<Vec<P>> = alphabet.iter().map(|a| vec![*a]).collect();
+                        for _ in 1..depth {
+                            seqs = seqs.iter().flat_map(|s| alphabet.iter().map(move |a| { let mut t = s.clone(); t.push(*a); t })).collect();
+                        }
+                        rep.count("form_sequences", seqs.len() as u64);
+                        for mut pieces in seqs {
+                            pieces.push(P { len: g, kind: Kind::InPlace, single: true, closure: 0 });
+                            let total: usize = pieces.iter().map(|p| p.len).sum();
+                            rep.case(|| {
+                                let got = (fe.run)(key, &iv, &data[..total], &pieces, &pre)?;
+                                check_against(&fe, &got, &want, &pieces, "call-form sequence;")
+                            });
+                        }
+                    }
                     // (2) <= k split deviations from "one call on the whole input", all in place and all b2b
                     let mut cuts_sets: Vec<Vec<usize>> = vec![vec![]];
                     for a in 1..ndev {
